@@ -58,6 +58,13 @@ type File struct {
 	log      logging.StructuredLogger
 }
 
+// readSeekNopCloser keeps the write buffer open when an operation closes its source
+type readSeekNopCloser struct {
+	io.ReadSeeker
+}
+
+func (readSeekNopCloser) Close() error { return nil }
+
 func NewFile(
 	readOps *operations.Operations,
 	writeOps *operations.Operations,
@@ -166,7 +173,8 @@ func (f *File) syncWithoutLocking() error {
 							return nil, err
 						}
 
-						return f.writeBuf, nil
+						// The write buffer stays in use until the file is closed, so don't let the update close it
+						return readSeekNopCloser{f.writeBuf}, nil
 					},
 					Info: info,
 					Path: f.path,
@@ -202,8 +210,11 @@ func (f *File) closeWithoutLocking() error {
 	}
 
 	if f.writeBuf != nil {
-		// No need to close write buffer, the `update` operation closes it itself
 		if err := f.syncWithoutLocking(); err != nil {
+			return err
+		}
+
+		if err := f.writeBuf.Close(); err != nil {
 			return err
 		}
 
